@@ -76,7 +76,8 @@ def _one(w, rs, contents, ck, op, which=0, umask=None):
 def extra_cases(checkers=("none", "byteeq", "count")):
     """Targeted additions that the exhaustive matrix does not contain (both tiers):
     (a) three read-only levels with a GAP between two copies (every copy must still be found / compared);
-    (b) entries living in the SECONDARY shard of a sharded level, looked up through a fresh handle."""
+    (b) entries living in the SECONDARY shard of a sharded level, looked up through a fresh handle;
+    (c) under byte equality, copies that differ only by length (empty; a prefix ending on a 64 KiB boundary)."""
     out = []
     ops = [("get",), ("touch",), ("gou", "accept", "val:A"), ("gou", "promote", "val:A"), ("ensure", "val:A")]
     for rs in ((("plain",), ("sharded", 3), ("plain",)), (("plain",), ("plain",), ("plain",))):
@@ -89,6 +90,22 @@ def extra_cases(checkers=("none", "byteeq", "count")):
                             if w is None and op[0] in ("gou", "ensure") and op[0] != "gou":
                                 continue
                             out.append(_one(w, rs, contents, ck, op))
+    # (c) copies that differ only by LENGTH: an empty copy, and a copy that is a proper prefix of the
+    # other ending exactly on a 64 KiB boundary (the natural block size of a streaming comparison)
+    if "byteeq" in checkers:
+        big1, big2 = "rep:a:65536", "rep:a:131072"
+        for w, rs in ((None, (("plain",), ("plain",))), (("plain", 100), (("plain",),)), (("plain", 100), (("sharded", 3), ("plain",)))):
+            nlev = (1 if w else 0) + len(rs)
+            for pair in (("empty", "A"), ("A", "empty"), (big1, big2), (big2, big1), ("empty", "empty"), ("empty", big1)):
+                contents = pair + ("-",) * (nlev - 2)
+                for op in (("get",), ("gou", "accept", "val:A"), ("ensure", "val:A")):
+                    if w is None and op[0] == "ensure":
+                        continue
+                    out.append(_one(w, rs, contents, "byteeq", op))
+            # a hit that is a strict prefix (empty) of the freshly populated value
+            for contents in (("empty",) + ("-",) * (nlev - 1),):
+                for op in (("gou", "accept", "val:A"), ("ensure", "val:A")):
+                    out.append(_one(w, rs, contents, "byteeq", op))
     for w, rs in ((("sharded", 4, 100), ()), (("sharded", 4, 100), (("sharded", 3),)), (None, (("sharded", 3),)), (("plain", 100), (("sharded", 3), ("plain",)))):
         nlev = (1 if w else 0) + len(rs)
         for contents in itertools.product(["-", "A"], repeat=nlev):
@@ -142,15 +159,42 @@ def observe(desc, impl):
                 write = f[7]
             if f[1] == "f" and f[0] == "w/" + KEY[0]:
                 write = f[7]
+    # which levels' copies of the key had their access time moved by the operation (= were marked as used)
+    marked = None
+    if len(impl.snaps) >= 2:
+        def copies(snap):
+            out = {}
+            for l in snap:
+                f = l.split(" ")
+                if f[1] == "f" and ".kismet_temp" not in f[0] and (f[0].endswith("/" + KEY[0])):
+                    out[f[0]] = f[6]
+            return out
+        b0, a0 = copies(impl.snaps[0]), copies(impl.snaps[-1])
+        marked = sorted(set(p.split("/")[0] for p in b0 if p in a0 and a0[p] != b0[p]))
     hit = d.get("hit", "none")
     chk = d.get("chk", "0[]")
     cmps = chk[chk.index("[") + 1:-1]
-    return {"res": res, "write": write, "hit": hit, "cmps": cmps, "off": d.get("off"), "acc": d.get("acc"), "cls": cls}
+    return {"res": res, "write": write, "hit": hit, "cmps": cmps, "off": d.get("off"), "acc": d.get("acc"), "cls": cls, "marked": marked}
+
+
+def _norm(tok):
+    """long contents: the specification names them rep:<byte>:<n>, the snapshot len:<n>:<hash>"""
+    if tok is None:
+        return tok
+    pre = "value:" if tok.startswith("value:") else ""
+    t = tok[len(pre):]
+    if t.startswith("rep:"):
+        return pre + "len:" + t.split(":")[2]
+    if t.startswith("len:"):
+        return pre + "len:" + t.split(":")[1]
+    return tok
 
 
 def matches_spec(desc, ob, sp):
     """-> list of differing fields"""
     bad = []
+    ob = dict(ob, res=_norm(ob["res"]), write=_norm(ob["write"]))
+    sp = dict(sp, res=_norm(sp["res"]), write=_norm(sp["write"]))
     exp = sp["res"]
     if exp == "err:mismatch":
         exp_ok = ob["res"] in ("err:other", "err:mismatch")      # byte_equality_checker reports ErrorKind::Other
@@ -164,6 +208,12 @@ def matches_spec(desc, ob, sp):
         bad.append(("write", ob["write"], sp["write"]))
     if desc["op"][0] in ("gou",) and ob["hit"] != sp["hit"] and not ob["res"].startswith("err") and ob["res"] != "panic":
         bad.append(("hit", ob["hit"], sp["hit"]))
+    if desc["op"][0] == "touch" and ob.get("marked") is not None:
+        # touch marks the FIRST copy found, and no other
+        levels = (["w"] if desc["w"] else []) + ["r%d" % i for i in range(len(desc["rs"]))]
+        first = [lv for lv, c in zip(levels, desc["contents"]) if c != "-"][:1]
+        if ob["marked"] != first:
+            bad.append(("marked", ",".join(ob["marked"]) or "none", ",".join(first) or "none"))
     if desc["ck"] == "count" and ob["cmps"] != sp.get("cmps", ""):
         bad.append(("cmps", ob["cmps"], sp.get("cmps", "")))
     return bad
